@@ -333,6 +333,10 @@ func (p *Prog) vacuityChecks(obls []*Obligation, dir string) []string {
 			sem <- struct{}{}
 			defer func() { <-sem }()
 			o := last[f]
+			if o == nil {
+				ch <- res{f, "skip"}
+				return
+			}
 			// only unconditional assumptions (requires, typing) are checked for consistency: facts before the first obligation
 			first := o
 			for _, x := range obls {
